@@ -133,6 +133,9 @@ def default_inline(fi: FuncInfo) -> bool:
     underscore (not a dunder) is analysed inline, so that extracting a few statements into a helper - or inlining one -
     does not change what a path rule sees. Public functions stay calls (rules name them)."""
     n = fi.name
+    if fi.cls is not None and fi.parent is None and fi.cls.name.startswith("_") and not fi.cls.name.startswith("__"):
+        # a method of a private class (a small holder of state extracted from - or inlined back into - its user)
+        return all(d in ("staticmethod", "classmethod", "property") for d in fi.decorators)
     if not (n.startswith("_") and not n.startswith("__")):
         return False
     # a decorator can change what a call does (a cache, a wrapper): such a helper is not its body
